@@ -248,7 +248,8 @@ Definition import_prog (B : Z) (w : N) : iprog :=
              let best := snd a in
              let stop := Z.min (k + B) best in
              import_blocks_prog w k stop
-               (Write IRetry (fun t => inr (with_status t (setN (x_status t) w
+               (Write IRetry (fun t => if f_import_tipcheck fx && negb (node_on_synced n (x_w t) stop) then inl IRetry else
+                                       inr (with_status t (setN (x_status t) w
                                               (if stop =? best then WReady else WImporting stop)))) iX0
                   (Ret IOk)) n
        | _ => Ret IOk
